@@ -87,6 +87,22 @@ fn run_typed<H: Hk>(inp: &Input) -> Outcome {
     }
 }
 
+/// really stream `n` patterned bytes into a fresh hasher, read the state back through the hook
+fn real_stream<H: Hk>(n: u64) -> Hook {
+    let mut h = H::default();
+    let chunk: Vec<u8> = (0..(1usize << 20)).map(|i| (i as u32).wrapping_mul(2654435761).to_le_bytes()[3] ^ (i as u8)).collect();
+    let sizes = [1usize << 20, 65537, 4096, 63, 1, 64, 129, 1 << 20, 31, 32, 33, 128];
+    let (mut done, mut k) = (0u64, 0usize);
+    while done < n {
+        let m = (sizes[k % sizes.len()] as u64).min(n - done) as usize;
+        Digest::update(&mut h, &chunk[..m]);
+        done += m as u64;
+        k += 1;
+    }
+    let (x, t, b, p) = h.get();
+    Hook { x, t0: t.0, t1: t.1, buffered: b[..p].to_vec() }
+}
+
 macro_rules! by_nout {
     ($ty:ident, $inp:expr) => {
         match $inp.nout {
@@ -292,7 +308,7 @@ fn gen_inputs(rng: &mut Rng, thorough: bool, streams: &str) -> Vec<Input> {
 fn main() {
     let argv: Vec<String> = std::env::args().collect();
     if argv.len() < 2 || argv[1] != "skein" {
-        eprintln!("usage: h_skein skein [--seed N --shards N --out DIR --tier quick|thorough --streams all|hook|smoke --runner run_c05]");
+        eprintln!("usage: h_skein skein [--seed N --shards N --out DIR --tier quick|thorough --streams all|hook|smoke --real N --runner run_c05]");
         std::process::exit(2);
     }
     let a = Args::parse(&argv[2..]);
@@ -307,7 +323,35 @@ fn main() {
     std::panic::set_hook(Box::new(|_| {}));
 
     let mut rng = Rng::new(seed ^ 0x5ce1_4a5b);
-    let inputs = gen_inputs(&mut rng, thorough, &streams);
+    let mut inputs = gen_inputs(&mut rng, thorough, &streams);
+    // C17: the byte position really driven to just below 2^32 bytes (4 GiB streamed), the tail
+    // then crosses it; the position read back must be the bytes compressed so far
+    let real = a.u64("real", 0);
+    let mut direct: Vec<String> = Vec::new();
+    let mut real_bytes = 0u64;
+    for k in 0..real {
+        let size = SIZES[(k as usize + 1) % 3];
+        let nb = (size / 8) as u64;
+        let below = [1u64, nb, 2 * nb + 5, nb - 1][k as usize % 4];
+        let n = (1u64 << 32) - below;
+        let hook = match size {
+            256 => real_stream::<Skein256<U32>>(n),
+            512 => real_stream::<Skein512<U64>>(n),
+            _ => real_stream::<Skein1024<U128>>(n),
+        };
+        real_bytes += n;
+        let want_t0 = ((n + nb - 1) / nb - 1) * nb; // lazy buffering: the last block stays pending
+        if hook.t0 != want_t0 || hook.buffered.len() as u64 != n - want_t0 || hook.t1 != T1_MSG {
+            direct.push(format!(
+                "{{\"what\":\"position after really streaming\",\"size\":{},\"streamed\":{},\"t0\":{},\"t1\":\"{:x}\",\"pos\":{}}}",
+                size, n, hook.t0, hook.t1, hook.buffered.len()
+            ));
+        }
+        let tail = below as usize + [0usize, 1, nb as usize, 5][k as usize % 4];
+        let msg = content(&mut rng, k as usize, tail);
+        let split = split_for(&mut rng, tail, nb as usize);
+        inputs.push(Input { size, nout: [32usize, 64, 128][(k as usize + 1) % 3], hook: Some(hook), msg, split, stream: "real_stream" });
+    }
     let mut coq = Vec::new();
     let mut js = Vec::new();
     let mut samples: Vec<String> = Vec::new();
@@ -394,7 +438,7 @@ fn main() {
     std::fs::write(format!("{}/cases.json", out), format!("[{}]", js.join(",\n"))).unwrap();
     let streams_js: Vec<String> = by_stream.iter().map(|(k, v)| format!("{}:{}", jstr(k), v)).collect();
     println!(
-        "{{\"evaluations\":{},\"distinct_nontrivial\":{},\"profile\":{},\"no_unroll\":{},\"by_size\":{{\"256\":{},\"512\":{},\"1024\":{}}},\"by_stream\":{{{}}},\"output_sizes\":{:?},\"panics\":{},\"max_msg_len\":{},\"message_blocks_total\":{},\"direct_failures\":[],\"samples\":[{}]}}",
+        "{{\"evaluations\":{},\"distinct_nontrivial\":{},\"profile\":{},\"no_unroll\":{},\"by_size\":{{\"256\":{},\"512\":{},\"1024\":{}}},\"by_stream\":{{{}}},\"output_sizes\":{:?},\"panics\":{},\"max_msg_len\":{},\"message_blocks_total\":{},\"really_streamed_bytes\":{},\"direct_failures\":[{}],\"samples\":[{}]}}",
         inputs.len(),
         distinct.len(),
         jstr(if debug { "debug" } else { "release" }),
@@ -407,6 +451,8 @@ fn main() {
         panics,
         max_len,
         blocks_total,
+        real_bytes,
+        direct.join(","),
         samples.join(",")
     );
 }
